@@ -186,6 +186,7 @@ pub fn run(p: &Params) -> Run {
             }
         }
     }
+    run.notes.push("almost-literal text with a multi-byte character at every byte offset 0..30 in TIMESTAMP / INTERVAL / TEXT fields and JSON strings".to_owned());
     run.notes.push("every case runs under catch_unwind with overflow checks on; a panic is a failure; text-format runs and expressions are also model correspondence cases".to_owned());
     run
 }
